@@ -7,13 +7,13 @@ use vcommon::serde_json::{json, Value};
 use vcommon::{Args, Report};
 
 pub fn full_range(thorough: bool) -> usize {
-    if thorough { 128 * 1024 + 1 } else { 33 * 1024 + 1 }
+    if thorough { 320 * 1024 + 1 } else { 65 * 1024 + 1 }
 }
 
 pub fn lengths(thorough: bool) -> Vec<usize> {
     let mut set: std::collections::BTreeSet<usize> = (0..=full_range(thorough)).collect();
     let ds: [i64; 9] = [-65, -64, -63, -1, 0, 1, 63, 64, 65];
-    let kmax = if thorough { 1024 } else { 256 };
+    let kmax = if thorough { 2048 } else { 512 };
     let mut ks: Vec<i64> = (1..=kmax).collect();
     let jmax = if thorough { 14 } else { 10 };
     for j in 0..=jmax {
@@ -214,7 +214,7 @@ pub fn run(args: &Args, rep: &mut Report) {
         "every length 0..={} plus the lattice k*1024+d (k<={}, 2^j chunks j<={}, {{4,8,16}}*m chunks; d in -65,-64,-63,-1,0,1,63,64,65) \
          x streams A,B x primary modes (hash, keyed(test key), derive(test context)) x every forced SIMD level; secondary keys/contexts \
          on {} lattice lengths; non-trivial = distinct (level, mode, stream, length) with length > 0",
-        full_range(thorough), if thorough { 1024 } else { 256 }, if thorough { 14 } else { 10 }, lite.len()
+        full_range(thorough), if thorough { 2048 } else { 512 }, if thorough { 14 } else { 10 }, lite.len()
     );
     for (ti, l) in [(0usize, 0usize), (1, levels.len() - 1), (2, levels.len() / 2)] {
         if ti < tables.len() {
